@@ -122,6 +122,17 @@ int main ()
     O.put (finite ? 1 : 0); putD (O, res / (kappa*kappa)); putD (O, e1); putD (O, std::fabs (det(h) - 1) / (kappa*kappa)); putD (O, std::fabs (det(u) - 1) / (kappa*kappa));
     // positive definite (in double this can only be resolved while kappa^2 stays below 1/epsilon)
     O.put ((h.s0 > 0 && (h.s0 > p || kappa > 1e7)) ? 1 : 0); };
+  // the same with the process-wide polarisation basis set to something else first (polar, sqrt, eigen are functions of their
+  // arguments alone; the basis only concerns the Stokes conversions)
+  OP("o.c09.polarb") { std::string b = A.next(); if (b == "cir") Pauli::basis().set_basis (Signal::Circular); else if (b == "ell") { double o = rdD(A), e = rdD(A); Pauli::basis().set_basis (o, e); }
+    Jones<double> j = rdJ(A); CD d; Quaternion<double,H> h; Quaternion<double,U> u; polar (d,h,u,j);
+    Quaternion<double,H> hq (std::fabs (j.j00.real()) + 2, 0.5*j.j01.real(), 0.25*j.j01.imag(), 0.3*j.j10.real()); Quaternion<double,H> r = sqrt (hq); Quaternion<double,U> er = eigen (hq);
+    Pauli::basis().set_basis (Signal::Linear);
+    CD d2; Quaternion<double,H> h2; Quaternion<double,U> u2; polar (d2,h2,u2,j); Quaternion<double,H> r2 = sqrt (hq); Quaternion<double,U> er2 = eigen (hq);
+    double x[18] = { d.real(), d.imag(), h.s0, h.s1, h.s2, h.s3, u.s0, u.s1, u.s2, u.s3, r.s0, r.s1, r.s2, r.s3, er.s0, er.s1, er.s2, er.s3 };
+    double y[18] = { d2.real(), d2.imag(), h2.s0, h2.s1, h2.s2, h2.s3, u2.s0, u2.s1, u2.s2, u2.s3, r2.s0, r2.s1, r2.s2, r2.s3, er2.s0, er2.s1, er2.s2, er2.s3 };
+    int bad = 0; for (int i=0;i<18;i++) if (memcmp (x+i, y+i, 8) != 0 && !(x[i] != x[i] && y[i] != y[i])) bad++;
+    O.put (bad); };
   // oracle: quaternion eigen-rotation
   OP("o.c10.eigend") { Quaternion<double,H> q = rdQ<H>(A); Quaternion<double,U> r = eigen(q);
     bool finite = fin(r.s0) && fin(r.s1) && fin(r.s2) && fin(r.s3);
